@@ -28,6 +28,8 @@ SENSES = {
     "fixed_nosense": (fixed_sense(0, 0x00, 0x00), (0, 0, 0)),
     "deferred": (fixed_sense(3, 0x11, 0x00, code=0x71), None),
     "long252": (fixed_sense(3, 0x11, 0x04, length=252), (3, 0x11, 0x04)),
+    # CHECK CONDITION without autosense data (None over iSCSI, empty over SG_IO): only "some exception, one submission" is required
+    "nosense": (None, None),
 }
 
 
@@ -56,6 +58,10 @@ def judge(transport, status, sensekind, raw, outcome, cmd, where):
     if status == 0x00:
         if kind != "ret":
             out.append(("%s/%s/good_raises" % (transport, where), "GOOD status raised %s: %s" % (type(val).__name__, val)))
+        return out
+    if status == 0x02 and sense is None:
+        if kind == "ret" and not (raw and cmd is not None and cmd.raw_sense_data is not None):
+            out.append(("%s/%s/check_condition_returns_normally" % (transport, where), "CHECK CONDITION without sense data returned normally"))
         return out
     if status == 0x02:
         if kind == "ret":
@@ -135,11 +141,16 @@ def run_case(case, obs=None):
             s = rig.facade()
             rig.target.script.append((status, SENSES[sensekind][0]))
             raw = method.startswith("atapassthrough")
+            n0 = len(rig.target.log)
             oc = attempt(lambda: F.call(s, method))
             if obs is not None:
                 obs.append((oc[0], type(oc[1]).__name__))
             cmd = oc[1] if oc[0] == "ret" else None
-            return judge(tr, status, sensekind, raw, oc, cmd, "facade." + method)
+            v = judge(tr, status, sensekind, raw, oc, cmd, "facade." + method)
+            if len(rig.target.log) - n0 != 1:
+                v.append(("%s/facade.%s/not_sent_once" % (tr, method), "status %#04x: the target saw %d commands for one facade call"
+                          % (status, len(rig.target.log) - n0)))
+            return v
         finally:
             rig.close()
     if mode == "hist":
@@ -223,7 +234,7 @@ def run_partition(part, tier, seed):
         _, tr, m = part
         for st in F.sets_offering(m):
             for status in range(256):
-                for sk in ("fixed18", "desc8"):
+                for sk in ("fixed18", "desc8") + (("nosense",) if status == 2 else ()):
                     do(["facade", tr, m, st, status, sk], status != 0)
                     acc.traces += 1
                     acc.transitions += 1
